@@ -460,3 +460,158 @@ def tlc_cover(workdir, cfg_text, max_paths, seed, workers=4, timeout=600):
     shutil.rmtree(sd, ignore_errors=True)
     paths, cov, total = transition_cover(init, nexttxn, edges, max_paths, random.Random(seed))
     return paths, cov, total, r
+
+
+# ----------------------------------------------------------------------------- conformance to StackProto (TraceStackProto)
+
+CONFORM_OPS = {"open", "close", "reopen", "add", "addition", "abort", "compactall", "compactrange", "autocompact", "reload", "clean", "read"}
+
+
+def conform_events(out, run):
+    """The recorded execution in the vocabulary of StackProto, or None if the run uses something the implementation-level
+    specification does not model (transactions without marker refs whose compactions can have an empty result, SkipNameCheck,
+    a misconfigured hash function, reflog expiry, injected faults, the 'overlap' call, a failed open)."""
+    if run.get("nomarks") or run.get("skipnamecheck") or run.get("alien") or run.get("fault"):
+        return None
+    evs = out["events"]
+    # tables are named after the temporary they were renamed from (the model has one id counter)
+    tmap = {}
+    for e in evs:
+        if e["ev"] == "fs" and e["op"] == "rename" and e.get("pk") == "tmp" and e.get("pk2") == "tab" and e["res"] == "ok":
+            if e["to"] in tmap:
+                return None
+            tmap[e["to"]] = "t" + e["path"][3:]
+
+    def nm(p):
+        if p.endswith(".lock") and p != "list.lock":
+            return tmap.get(p[:-5], p[:-5]) + ".lock"
+        return tmap.get(p, p)
+    res = []
+    skip_ret = set()
+    pending_call = {}
+    for i, e in enumerate(evs):
+        k = e["ev"]
+        if k in ("view",):
+            continue
+        if k == "stuck":
+            return None
+        h = e["h"]
+        if k == "fs":
+            if e["op"] == "close":
+                continue
+            if e.get("injected") or e["res"].startswith("other") or e["op"] not in ("createexcl", "readfile", "open", "tempfile", "rename", "remove", "readdir", "write"):
+                return None
+            res.append(dict(k="fs", h=h, op=e["op"], pk=e["pk"], res=e["res"], path=nm(e["path"]), txn=0, parts=0, first=0, last=0, auto=False))
+        elif k == "call":
+            if e["op"] not in CONFORM_OPS or e.get("expiry"):
+                return None
+            op = e["op"]
+            if op == "add" and not e["recs"]:
+                op = "empty"
+            pending_call[h] = len(res)
+            res.append(dict(k="call", h=h, op=op, pk="", res="", path="", txn=e["txn"], parts=e.get("nparts", 0),
+                            first=e.get("first", 0) + 1, last=e.get("last", 0) + 1, auto=bool(e.get("auto")) and op in ("add", "empty")))
+        elif k == "ret":
+            if e["res"] == "nohandle":
+                # a call on a closed handle: nothing happened
+                j = pending_call.get(h)
+                if j is not None and j == len(res) - 1:
+                    res.pop()
+                    continue
+                return None
+            if e["res"] == "panic" or (e["op"] in ("open",) and e["res"] != "ok"):
+                return None
+            res.append(dict(k="ret", h=h, op=e["op"], pk="", res=e["res"], path="", txn=0, parts=0, first=0, last=0, auto=False))
+        elif k == "crash":
+            res.append(dict(k="crash", h=h, op="", pk="", res="", path="", txn=0, parts=0, first=0, last=0, auto=False))
+        else:
+            return None
+    return res
+
+
+def conform(outs, runs, workdir, jvms=8, chunk=60, timeout=900, specdir=None):
+    """Validate recorded executions against StackProto (module TraceStackProto).  Returns (number of traces inside the
+    vocabulary, list of (trace id, event index, event) that the implementation-level specification cannot explain, stats)."""
+    runbyid = {r["id"]: r for r in runs}
+    items = []
+    for o in outs:
+        ev = conform_events(o, runbyid.get(o["id"], {}))
+        if ev:
+            items.append({"id": o["id"], "ev": ev})
+    chunks = [items[i:i + chunk] for i in range(0, len(items), chunk)]
+    drift = []
+    stats = dict(states=0, events=sum(len(t["ev"]) for t in items))
+
+    def one(i):
+        sd = os.path.join(workdir, "confspec-%d" % i)
+        shutil.copytree(specdir or os.path.join(C.VERIF, "spec"), sd)
+        with open(os.path.join(sd, "ptraces.json"), "w") as f:
+            json.dump(chunks[i], f)
+        r = C.tlc(sd, "TraceStackProto", "tsp.cfg", workdir, workers=1, timeout=timeout, heap="3g", small=True)
+        shutil.rmtree(sd, ignore_errors=True)
+        return r
+
+    with cf.ThreadPoolExecutor(max_workers=jvms) as ex:
+        results = list(ex.map(one, range(len(chunks))))
+    for i, r in enumerate(results):
+        out = r["out"]
+        stats["states"] += r["distinct"]
+        if r["rc"] == -9:
+            raise C.Inconclusive("TLC conformance validation timed out")
+        hw = {int(m.group(1)): (int(m.group(2)), int(m.group(3))) for m in re.finditer(r'<<\s*"HW",\s*(\d+),\s*(\d+),\s*(\d+)\s*>>', out)}
+        if len(hw) != len(chunks[i]) or re.search(r"Error: ", out):
+            raise C.Inconclusive("TLC failed on TraceStackProto:\n" + out[-3000:])
+        for t, (reached, n) in hw.items():
+            if reached <= n:
+                tr = chunks[i][t - 1]
+                drift.append((tr["id"], reached, tr["ev"][reached - 1]))
+    return len(items), drift, stats
+
+
+def conform_selftest(outs, runs, workdir):
+    """The binding is not vacuous: traces with ONE corrupted field (a result, a path, a dropped event, a swapped pair of events
+    of one handle) must be rejected by TraceStackProto.  Returns dict(mutants=, rejected=); an accepted mutant is inconclusive."""
+    runbyid = {r["id"]: r for r in runs}
+    base = []
+    for o in outs:
+        ev = conform_events(o, runbyid.get(o["id"], {}))
+        if ev and len(ev) > 40:
+            base.append((o, ev))
+        if len(base) >= 6:
+            break
+    muts = []
+    for k, (o, ev) in enumerate(base):
+        fs = [i for i, e in enumerate(ev) if e["k"] == "fs"]
+        if len(fs) < 10:
+            continue
+        i = fs[len(fs) // 2 + k]
+        e = dict(ev[i])
+        kind = k % 4
+        if kind == 0:
+            e["res"] = "ENOENT" if e["res"] == "ok" else "ok"
+            m = ev[:i] + [e] + ev[i + 1:]
+        elif kind == 1:
+            e["path"] = e["path"] + "9"
+            m = ev[:i] + [e] + ev[i + 1:]
+        elif kind == 2:
+            m = ev[:i] + ev[i + 1:]
+        else:
+            e["op"] = "readfile" if e["op"] != "readfile" else "open"
+            m = ev[:i] + [e] + ev[i + 1:]
+        muts.append({"id": "mut%d" % k, "events": [], "_ev": m})
+    if not muts:
+        return dict(mutants=0, rejected=0)
+    # feed the pre-processed events directly
+    sd = os.path.join(workdir, "confself")
+    shutil.copytree(os.path.join(C.VERIF, "spec"), sd)
+    with open(os.path.join(sd, "ptraces.json"), "w") as f:
+        json.dump([{"id": m["id"], "ev": m["_ev"]} for m in muts], f)
+    r = C.tlc(sd, "TraceStackProto", "tsp.cfg", workdir, workers=1, timeout=600, heap="3g", small=True)
+    shutil.rmtree(sd, ignore_errors=True)
+    hw = {int(m.group(1)): (int(m.group(2)), int(m.group(3))) for m in re.finditer(r'<<\s*"HW",\s*(\d+),\s*(\d+),\s*(\d+)\s*>>', r["out"])}
+    if len(hw) != len(muts):
+        raise C.Inconclusive("TLC failed on the conformance self-test:\n" + r["out"][-2000:])
+    rejected = sum(1 for t, (reached, n) in hw.items() if reached <= n)
+    if rejected != len(muts):
+        raise C.Inconclusive("TraceStackProto accepted a corrupted trace (%d of %d rejected): the binding is vacuous" % (rejected, len(muts)))
+    return dict(mutants=len(muts), rejected=rejected)
